@@ -25,7 +25,7 @@ import (
 
 func TestMain(m *testing.M) { drv.Main(m) }
 
-const rule = "state machine on the real application (tx semantics): 3 funded actors and one poor actor (1000 units of each denom: its messages mostly name amounts it does not own and must fail as a whole), 5 shared denoms; create balancer pools (2-5 assets, weights 1..2^20-1, spread 0..5%) and stableswap pools (2-5 assets, scaling factors 1..1e6), MsgJoinPool, MsgJoinSwapExternAmountIn, MsgJoinSwapShareAmountOut, MsgExitPool (incl. dust exits of 1..1000 share units), MsgExitSwapShareAmountIn, MsgExitSwapExternAmountOut, 1-3 hop MsgSwapExactAmountIn/Out and split routes through poolmanager, direct bank sends to a pool address, default/per-pair taker fee changes; oracle after every step: bank balance of each pool account == reserves the pool reports + directly sent, bank supply of each gamm/pool/N == total shares the pool reports, supply of every non-share denom unchanged, and around every message the balance deltas of all tracked accounts (actors, pools, every module account) sum to zero per denom; single-hop swaps: taker-fee collector receives exactly in - floor(in(1-f)) (exact in) or ceil(x/(1-f)) - x (exact out); failed messages leave the digest unchanged; non-trivial = >= 2 pools touched, a multi-hop swap, a single-asset join or exit and a failed message; distinct by history hash"
+const rule = "state machine on the real application (tx semantics): 3 funded actors and one poor actor (1000 units of each denom: its messages mostly name amounts it does not own and must fail as a whole), 5 shared denoms; create balancer pools (2-5 assets, weights 1..2^20-1, spread 0..5%) and stableswap pools (2-5 assets, scaling factors 1..1e6), MsgJoinPool, MsgJoinSwapExternAmountIn, MsgJoinSwapShareAmountOut, MsgExitPool (incl. dust exits of 1..1000 share units), MsgExitSwapShareAmountIn, MsgExitSwapExternAmountOut, 1-3 hop MsgSwapExactAmountIn/Out (a fifth of the exact-in swaps with a minimum output that cannot be met: computed, then rejected), split routes exact-in and exact-out through poolmanager, two-message transactions whose second message fails (the first message's swap is rolled back with it), direct bank sends to a pool address, default/per-pair taker fee changes; oracle after every step: bank balance of each pool account == reserves the pool reports + directly sent, bank supply of each gamm/pool/N == total shares the pool reports, supply of every non-share denom unchanged, and around every message the balance deltas of all tracked accounts (actors, pools, every module account) sum to zero per denom; single-hop swaps: taker-fee collector receives exactly in - floor(in(1-f)) (exact in) or ceil(x/(1-f)) - x (exact out); failed messages leave the digest unchanged; non-trivial = >= 2 pools touched, a multi-hop swap, a single-asset join or exit and a failed message; distinct by history hash"
 
 var denoms = []string{"aaa", "bbb", "ccc", "ddd", "uosmo"}
 
@@ -452,7 +452,12 @@ func TestPropGamm(t *testing.T) {
 				for i := range ids {
 					routes = append(routes, pmtypes.SwapAmountInRoute{PoolId: ids[i], TokenOutDenom: outs[i]})
 				}
-				msg := &pmtypes.MsgSwapExactAmountIn{Sender: chain.Actor(a).String(), Routes: routes, TokenIn: coin(in, amt), TokenOutMinAmount: osmomath.OneInt()}
+				minOut := osmomath.OneInt()
+				if rapid.IntRange(0, 4).Draw(rt, "impossibleMinOut") == 0 {
+					// a limit that cannot be met: the swap is computed (and the pool objects touched) before it is rejected
+					minOut = osmomath.NewIntFromBigInt(new(big.Int).Exp(big.NewInt(10), big.NewInt(40), nil))
+				}
+				msg := &pmtypes.MsgSwapExactAmountIn{Sender: chain.Actor(a).String(), Routes: routes, TokenIn: coin(in, amt), TokenOutMinAmount: minOut}
 				fee, _ := c.App.PoolManagerKeeper.GetTradingPairTakerFee(c.Ctx, in, outs[0])
 				r, b0, b1 := run(fmt.Sprintf("swapIn %s%s via %v", amt, in, ids), msg, false)
 				if r.OK() {
@@ -548,6 +553,72 @@ func TestPropGamm(t *testing.T) {
 				if r.OK() {
 					conserve("MsgSplitRouteSwapExactAmountIn", b0, b1)
 					w.hist = append(w.hist, fmt.Sprintf("splitIn a%d %s%s->%s legs=%d", a, total, in, out, len(legs)))
+				}
+			},
+			// a transaction of two messages whose second message fails: the swap of the first message is rolled back with it
+			// (anything the first message left in memory must not survive)
+			"revertedTx": func(rt *rapid.T) {
+				if len(w.pools) == 0 {
+					rt.Skip("no pools")
+				}
+				a := rapid.IntRange(0, 2).Draw(rt, "actor")
+				in := denoms[rapid.IntRange(0, len(denoms)-1).Draw(rt, "in")]
+				ids, outs := route(rt, in, rapid.IntRange(1, 2).Draw(rt, "hops"))
+				if len(ids) == 0 {
+					rt.Skip("no route")
+				}
+				amt := genAmt(rt, "amt", w.pool(ids[0]).GetTotalPoolLiquidity(c.Ctx).AmountOf(in).BigInt())
+				var routes []pmtypes.SwapAmountInRoute
+				for i := range ids {
+					routes = append(routes, pmtypes.SwapAmountInRoute{PoolId: ids[i], TokenOutDenom: outs[i]})
+				}
+				first := &pmtypes.MsgSwapExactAmountIn{Sender: chain.Actor(a).String(), Routes: routes, TokenIn: coin(in, amt), TokenOutMinAmount: osmomath.OneInt()}
+				second := &banktypes.MsgSend{FromAddress: chain.Actor(3).String(), ToAddress: chain.Actor(0).String(), Amount: sdk.NewCoins(coin(in, new(big.Int).Exp(big.NewInt(10), big.NewInt(35), nil)))}
+				dig := c.Digest()
+				r := c.ExecTx(first, second)
+				if r.OK() {
+					rt.Fatalf("harness: a bank send of 1e35 by the poor actor succeeded")
+				}
+				if c.Digest() != dig {
+					rt.Fatalf("a two-message transaction whose second message failed (%v) changed state [history %v]", r.Err, w.hist)
+				}
+				w.failed = true
+				w.classes["reverted-two-message-tx"] = true
+				w.hist = append(w.hist, fmt.Sprintf("revertedTx a%d swapIn %s%s via %v + failing send", a, amt, in, ids))
+			},
+			"splitOut": func(rt *rapid.T) {
+				if len(w.pools) == 0 {
+					rt.Skip("no pools")
+				}
+				a := rapid.IntRange(0, 3).Draw(rt, "actor")
+				in := denoms[rapid.IntRange(0, len(denoms)-1).Draw(rt, "in")]
+				ids, outs := route(rt, in, 1)
+				if len(ids) == 0 {
+					rt.Skip("no route")
+				}
+				out := outs[0]
+				var legs []pmtypes.SwapAmountOutSplitRoute
+				total := new(big.Int)
+				for _, id := range w.pools {
+					has := map[string]bool{}
+					for _, d := range poolDenoms(id) {
+						has[d] = true
+					}
+					if has[in] && has[out] && len(legs) < 3 {
+						amt := genAmt(rt, fmt.Sprintf("leg%d", id), w.pool(id).GetTotalPoolLiquidity(c.Ctx).AmountOf(out).BigInt())
+						total.Add(total, amt)
+						legs = append(legs, pmtypes.SwapAmountOutSplitRoute{Pools: []pmtypes.SwapAmountOutRoute{{PoolId: id, TokenInDenom: in}}, TokenOutAmount: osmomath.NewIntFromBigInt(amt)})
+					}
+				}
+				max := new(big.Int).Exp(big.NewInt(10), big.NewInt(29), nil)
+				msg := &pmtypes.MsgSplitRouteSwapExactAmountOut{Sender: chain.Actor(a).String(), Routes: legs, TokenOutDenom: out, TokenInMaxAmount: osmomath.NewIntFromBigInt(max)}
+				r, b0, b1 := run(fmt.Sprintf("splitOut %s%s over %d legs", total, out, len(legs)), msg, false)
+				if r.OK() {
+					conserve("MsgSplitRouteSwapExactAmountOut", b0, b1)
+					if d := delta(b0, b1, chain.Actor(a), out); d.Cmp(total) != 0 && in != out {
+						rt.Fatalf("split exact-out for %s%s credited the trader %s", total, out, d)
+					}
+					w.hist = append(w.hist, fmt.Sprintf("splitOut a%d %s<-%s%s legs=%d", a, in, total, out, len(legs)))
 				}
 			},
 			"directSend": func(rt *rapid.T) {
